@@ -2,8 +2,9 @@
 """Generate /verif/MANIFEST.json from the table below (keeps the manifest valid and in one place)."""
 import json, subprocess
 
-ENGINE_NAME = {"L": "loopsim (event-loop simulation)", "K": "coresim (core timed-history simulation)", "T": "tasksim (task-schedule simulation)"}
+ENGINE_NAME = {"LW": "loopsim (event-loop simulation) + wholeloop (the real select! loop on a paused, seeded tokio runtime)", "L": "loopsim (event-loop simulation)", "K": "coresim (core timed-history simulation)", "T": "tasksim (task-schedule simulation)"}
 TECH = {
+    "LW": "deterministic simulation with fault injection: seeded event-loop simulator around the real shell arms (virtual clock, in-memory socket seams, ledger/invariant monitors) plus whole-loop runs of the real run_sender_with_config on a paused-clock current-thread tokio runtime with seeded select! order and wire-level oracles; seed+plan replay",
     "L": "deterministic simulation with fault injection: seeded event-loop simulator around the real shell arms, virtual clock, in-memory socket seams, invariant/ledger monitors, seed+plan replay",
     "K": "deterministic simulation with fault injection: seeded timed event histories on the real sans-IO core under a virtual clock (silence, ACK starvation, RTT inflation, loss bursts, resets), temporal/invariant monitors, seed+plan replay",
     "T": "deterministic simulation with fault injection: own seeded single-thread executor deciding every task interleaving at await/yield points (stalled, closed and full subscribers), history oracles, seed+schedule replay",
@@ -11,9 +12,9 @@ TECH = {
 
 # id: (built, engine, category, text, note, design_ref)
 P = {
- "C01": (True, "L", "fault_enumeration",
+ "C01": (True, "LW", "fault_enumeration",
    "Closed-loop simulation of the real forwarding path (handle_srt_packet / forward_via_connection / send_stall_probes / flush_all_batches / send_all_datagrams) under seeded arm interleavings, all batch regimes, link loss, black holes, send errors, short and zero-progress sendmmsg, re-registration, reloads and stalls; a per-link FIFO ledger checks every send_batch call byte for byte, in order, once, the 32-datagram / one-flush-tick hold bound, the probe budget, and that only excused datagrams go missing. Sampling, not enumeration: a clean batch is evidence, not proof.",
-   "Trusted: the mirrored select! glue (call order of src/sender/mod.rs at the pinned commit), hook H3 as the only way stream bytes leave, the environment models. Kernel UDP, recvmmsg and real timers are outside the simulation.",
+   "Trusted: hook H3 as the only way stream bytes leave, the environment models. Engine L mirrors the select! glue; one run in six executes the real run_sender_with_config (engine W: paused tokio clock, seeded select! order, listener shim, wire-level conservation / order / hold-bound / duplicate-budget oracle) so that the glue of src/sender/mod.rs is covered too. Kernel UDP and recvmmsg are outside the simulation.",
    "§P-C01"),
  "C02": (True, "L", "exploration",
    "Closed-loop simulation (send side fault-free) with retransmissions of already-acknowledged numbers, duplicate probes, receiver ACK/NAK traffic and forged well-formed cumulative ACKs (stale, duplicate, >64 ahead), SRTLA ACK lists on any link, NAK singles/ranges and link resets; after every step each link's outstanding log is compared as a set with a high-water-mark-free set model, plus in-flight = |set| >= 0 and score = window/(|set|+queued+1). Seeded sampling of histories: evidence, not proof.",
@@ -39,11 +40,11 @@ P = {
    "Simulation of the whole recovery loop (housekeeping -> reconnect -> REG2/REG1 -> REG3 -> warming) on 2..4 uplinks over 15 s to 10 virtual minutes with per-link fault/repair schedules (black holes in either direction, total loss, lost handshake replies, receiver restarts, send errors, bind failures) across the clamped timeout range and both modes; monitors for tear-down cause, retry spacing and back-off cap, bounded liveness with a precondition evaluated from the plan and the receiver model at every tick, clean rejoin, and survivors carrying the stream. Seeded sampling of fault schedules.",
    "Trusted: receiver expiry 10 s as in srtla_rec and its accept rules as modelled; bounded liveness is judged only for links whose path has no random loss, no fault left on at the end of the plan and no bind failure (not among the listed fault kinds); a delivered REG_ERR is the peer's rejection, not a sender-side tear-down.",
    "§P-C08"),
- "C09": (True, "L", "fault_enumeration",
+ "C09": (True, "LW", "fault_enumeration",
    "Simulation of the real uplink receive path (handle_uplink_packet / process_uplink_packet / process_connection_events) with 50..600 adversarial datagrams per run (type codes swept over the whole 16-bit space across runs, lengths 0..1500, truncated and forged ACK/NAK/keepalive) on every uplink in every link state, before and after the client address is known, with WouldBlock and hard errors injected on the client socket; relay ledger at the client seam, liveness-stamp differential and delivery-proof rule after every step; a panic outside the simulator is a violation. Seeded sampling of inputs and histories.",
    "Trusted: SRTLA-internal is decided by type code alone; the mirrored 3-line instant-forward task; hook H4 as the only way bytes reach the client.",
    "§P-C09"),
- "C14": (True, "L", "fault_enumeration",
+ "C14": (True, "LW", "fault_enumeration",
    "Simulation of the real housekeeping pass and echo handling on 1..4 uplinks for up to 40 virtual seconds with late and stalled ticks, link loss and resets, failing sends, and echoes that are timely, late, duplicated, truncated, forged (zero / future / > 10 s old timestamps, trailing bytes); cadence judged tick by tick on the socket seam in virtual time, every keepalive frame reference-decoded against the link's pre-step state, and the RTT state allowed to change across a keepalive step iff a probe was outstanding and 0 < now - ts <= 10000. Seeded sampling of timed histories.",
    "Trusted: a keepalive counts as sent when handed to the socket; RTT samples from cumulative SRT ACKs are outside the statement.",
    "§P-C14"),
